@@ -23,28 +23,80 @@ theorem poolAt_length (c : Cfg) (st : St) : (poolAt c st).length = c.hosts.lengt
 
 theorem availAt_poolAt (c : Cfg) (st : St) (i : Nat) :
     availAt (poolAt c st) i =
-      match c.hosts[i]? with
-      | some h => !(h.unhealthy || decide (failsAt st i ≥ c.maxFails)) && !isFull c h
+      match hostState c st.over i with
+      | some s => !(s.unhealthy || decide (s.fails + failsAt st i ≥ c.maxFails)) && !fullS c s
       | none => false := by
   unfold availAt poolAt
   rw [List.getElem?_map]
   by_cases hi : i < c.hosts.length
   · rw [List.getElem?_range hi]
-    simp only [Option.map_some, List.getElem?_eq_getElem hi]
-    simp [Host.avail, Host.full, isFull]
+    simp only [Option.map_some]
+    have : ∃ s, hostState c st.over i = some s := by
+      simp [hostState, List.getElem?_eq_getElem hi]
+    obtain ⟨s, hs⟩ := this
+    simp [hs, Host.avail, Host.full, fullS]
   · have h1 : c.hosts[i]? = none := List.getElem?_eq_none (by omega)
     have h2 : (List.range c.hosts.length)[i]? = none := List.getElem?_eq_none (by simp; omega)
-    simp [h1, h2]
+    simp [hostState, h1, h2]
 
-theorem poolAt_sized (c : Cfg) (st : St) (hs : sized c = true) :
+/-! ### events -/
+
+/-- what the events of one attempt leave of the state of host j: what it was, or the state of an event on j -/
+theorem applyEvents_cases (evs : List Event) (n : Nat) (over : Nat → Option HostState) (j : Nat) :
+    applyEvents evs n over j = over j ∨ ∃ e ∈ evs, e.host = j ∧ applyEvents evs n over j = some e.state := by
+  induction evs generalizing over with
+  | nil => left; rfl
+  | cons e es ih =>
+    unfold applyEvents
+    simp only [List.foldl_cons]
+    rcases ih (if e.attempt = n then (fun j => if j = e.host then some e.state else over j) else over) with h | ⟨e', he', hj, h⟩
+    · unfold applyEvents at h
+      rw [h]
+      by_cases hn : e.attempt = n
+      · simp only [hn, if_true]
+        by_cases hj : j = e.host
+        · right; exact ⟨e, by simp, hj.symm, by simp [hj]⟩
+        · left; simp [hj]
+      · left; simp [hn]
+    · right; exact ⟨e', by simp [he'], hj, h⟩
+
+/-- every state an event has given a host is the state of an event on that host -/
+def OverOK (c : Cfg) (over : Nat → Option HostState) : Prop :=
+  ∀ i s, over i = some s → ∃ e ∈ c.events, e.host = i ∧ e.state = s
+
+theorem overOK_init (c : Cfg) : OverOK c (fun _ => none) := by
+  intro i s h; cases h
+
+theorem overOK_apply (c : Cfg) (n : Nat) (over : Nat → Option HostState) (h : OverOK c over) :
+    OverOK c (applyEvents c.events n over) := by
+  intro i s hs
+  rcases applyEvents_cases c.events n over i with h1 | ⟨e, he, hi, h1⟩
+  · rw [h1] at hs; exact h i s hs
+  · rw [h1] at hs; cases hs; exact ⟨e, he, hi, rfl⟩
+
+theorem over_untouched (c : Cfg) (over : Nat → Option HostState) (h : OverOK c over) (i : Nat)
+    (hu : untouched c i = true) : over i = none := by
+  cases ho : over i with
+  | none => rfl
+  | some s =>
+    obtain ⟨e, he, hi, _⟩ := h i s ho
+    have := (List.all_eq_true.mp hu) e he
+    simp [hi] at this
+
+theorem poolAt_sized (c : Cfg) (st : St) (hs : sized c = true) (hov : OverOK c st.over) :
     (poolAt c st).length ≤ 2147483648 ∧ ∀ x ∈ poolAt c st, x.conns ≤ maxInt64 := by
   simp only [sized, Bool.and_eq_true, decide_eq_true_eq, List.all_eq_true] at hs
-  refine ⟨by rw [poolAt_length]; exact hs.1, ?_⟩
+  refine ⟨by rw [poolAt_length]; exact hs.1.1, ?_⟩
   intro x hx
   simp only [poolAt, List.mem_map, List.mem_range] at hx
   obtain ⟨i, hi, rfl⟩ := hx
-  rw [List.getElem?_eq_getElem hi]
-  exact hs.2 _ (List.getElem_mem hi)
+  simp only [hostState, List.getElem?_eq_getElem hi]
+  cases ho : st.over i with
+  | none => exact hs.1.2 _ (List.getElem_mem hi)
+  | some s =>
+    obtain ⟨e, he, _, hes⟩ := hov i s ho
+    have := hs.2 e he
+    simpa [hes] using this
 
 theorem any_avail_of_availAt {p : Pool} {i : Nat} (h : availAt p i = true) : p.any Host.avail = true := by
   unfold availAt at h
@@ -83,35 +135,33 @@ theorem outcomeAt_okOrFail (script : List Outcome) (n : Nat) (h : script.all okO
 
 /-! ### the potential: failures the bad backends can still produce before they are all down -/
 
-def slackL (c : Cfg) (len : Nat → Nat) : List HostCfg → Nat → Nat
+def slackL (c : Cfg) (bad : HostCfg → Bool) (len : Nat → Nat) : List HostCfg → Nat → Nat
   | [], _ => 0
-  | h :: hs, k => (if !good c h then c.maxFails - len k else 0) + slackL c len hs (k + 1)
+  | h :: hs, k => (if bad h then c.maxFails - len k else 0) + slackL c bad len hs (k + 1)
 
 def lenT (st : St) (i : Nat) : Nat := (st.timers i).length
 
-def slack (c : Cfg) (st : St) : Nat := slackL c (lenT st) c.hosts 0
-
-theorem slackL_zero (c : Cfg) (hs : List HostCfg) (k : Nat) :
-    slackL c (fun _ => 0) hs k = c.maxFails * (hs.filter fun h => !good c h).length := by
+theorem slackL_zero (c : Cfg) (bad : HostCfg → Bool) (hs : List HostCfg) (k : Nat) :
+    slackL c bad (fun _ => 0) hs k = c.maxFails * (hs.filter bad).length := by
   induction hs generalizing k with
   | nil => simp [slackL]
   | cons h hs ih =>
     simp only [slackL, ih, List.filter_cons]
-    cases hg : good c h
-    · simp [Nat.mul_add, Nat.add_comm]
+    cases hg : bad h
     · simp
+    · simp [Nat.mul_add, Nat.add_comm]
 
-theorem slackL_congr (c : Cfg) (len len' : Nat → Nat) (hs : List HostCfg) (k : Nat)
-    (h : ∀ j, k ≤ j → len' j = len j) : slackL c len' hs k = slackL c len hs k := by
+theorem slackL_congr (c : Cfg) (bad : HostCfg → Bool) (len len' : Nat → Nat) (hs : List HostCfg) (k : Nat)
+    (h : ∀ j, k ≤ j → len' j = len j) : slackL c bad len' hs k = slackL c bad len hs k := by
   induction hs generalizing k with
   | nil => rfl
   | cons x xs ih =>
     simp only [slackL]
     rw [h k (Nat.le_refl k), ih (k + 1) (fun j hj => h j (by omega))]
 
-theorem slackL_bump (c : Cfg) (len : Nat → Nat) (i0 : Nat) (h0 : HostCfg) (hbad : good c h0 = false)
+theorem slackL_bump (c : Cfg) (bad : HostCfg → Bool) (len : Nat → Nat) (i0 : Nat) (h0 : HostCfg) (hbad : bad h0 = true)
     (hlt : len i0 < c.maxFails) (hs : List HostCfg) (k : Nat) (hk : k ≤ i0) (hget : hs[i0 - k]? = some h0) :
-    slackL c (fun j => if j = i0 then len j + 1 else len j) hs k + 1 = slackL c len hs k := by
+    slackL c bad (fun j => if j = i0 then len j + 1 else len j) hs k + 1 = slackL c bad len hs k := by
   induction hs generalizing k with
   | nil => simp at hget
   | cons x xs ih =>
@@ -120,10 +170,10 @@ theorem slackL_bump (c : Cfg) (len : Nat → Nat) (i0 : Nat) (h0 : HostCfg) (hba
     · subst hki
       simp only [Nat.sub_self, List.getElem?_cons_zero, Option.some.injEq] at hget
       subst hget
-      rw [slackL_congr c len _ xs (k + 1) (fun j hj => by
+      rw [slackL_congr c bad len _ xs (k + 1) (fun j hj => by
         have : j ≠ k := by omega
         simp [this])]
-      simp only [hbad, Bool.not_false, if_true]
+      simp only [hbad, if_true]
       omega
     · have hlt' : k < i0 := by omega
       have hget' : xs[i0 - (k + 1)]? = some h0 := by
@@ -134,14 +184,44 @@ theorem slackL_bump (c : Cfg) (len : Nat → Nat) (i0 : Nat) (h0 : HostCfg) (hba
       simp only [hki, if_false]
       omega
 
-/-! ### the invariant of the successful run -/
+theorem keepRetrying_cases (c : Cfg) (st : St) (acc : List Attempt) :
+    keepRetrying c st acc = .done .badGateway acc ∨
+      (st.now < c.tryDuration ∧ keepRetrying c st acc = .next { st with now := st.now + c.interval } acc) := by
+  unfold keepRetrying
+  by_cases h : st.now ≥ c.tryDuration
+  · left; simp [h]
+  · right; exact ⟨by omega, by simp [h]⟩
 
-structure Inv (c : Cfg) (st : St) : Prop where
+
+/-! ### the retrying phase: the potential and its invariant -/
+
+/-- failures the backends can still produce before they are all marked down -/
+def slack (c : Cfg) (st : St) : Nat := slackL c (fun h => !alwaysOk h) (lenT st) c.hosts 0
+
+structure Inv (c : Cfg) (st : St) (acc : List Attempt) : Prop where
   unexpired : ∀ i e, e ∈ st.timers i → e ≥ c.failTimeout
-  goodClean : ∀ i h, c.hosts[i]? = some h → good c h = true → st.timers i = []
+  okClean : ∀ i h, c.hosts[i]? = some h → alwaysOk h = true → st.timers i = []
   budget : st.now + slack c st * c.interval < c.tryDuration
+  over : st.over = overAfter c st.attempts
+  len : acc.length = st.attempts
 
-theorem failsAt_eq_lenT (c : Cfg) (st : St) (hinv : Inv c st) (hF : c.failTimeout ≥ c.tryDuration) (i : Nat) :
+/-- what both "the request is answered" theorems assume of the configuration -/
+structure Enabled (c : Cfg) : Prop where
+  failTimeoutPos : c.failTimeout > 0
+  okFail : okFailOnly c = true
+  maxFails : c.maxFails ≥ 1
+  outlives : c.failTimeout ≥ c.tryDuration
+  sized : sized c = true
+
+theorem overOK_overAfter (c : Cfg) (m : Nat) : OverOK c (overAfter c m) := by
+  induction m with
+  | zero => exact overOK_init c
+  | succ m ih => exact overOK_apply c m _ ih
+
+theorem Inv.overOK {c : Cfg} {st : St} {acc : List Attempt} (h : Inv c st acc) : OverOK c st.over := by
+  rw [h.over]; exact overOK_overAfter c _
+
+theorem failsAt_eq_lenT (c : Cfg) (st : St) (acc : List Attempt) (hinv : Inv c st acc) (hF : c.failTimeout ≥ c.tryDuration) (i : Nat) :
     failsAt st i = lenT st i := by
   unfold failsAt lenT
   congr 1
@@ -156,26 +236,61 @@ theorem mem_getElem? {α} {l : List α} {x : α} (h : x ∈ l) : ∃ i : Nat, l[
   obtain ⟨i, hi, hx⟩ := List.mem_iff_getElem.mp h
   exact ⟨i, by rw [List.getElem?_eq_getElem hi, hx]⟩
 
-/-- One iteration from a state satisfying the invariant either succeeds or records one more
-failure of a bad backend, keeps the invariant and lowers the potential by one. -/
-theorem step_inv (hs : SelSound) (hc : SelComplete) (c : Cfg) (hm : mustSucceed c = true)
-    (st : St) (acc : List Attempt) (hinv : Inv c st) :
+/-- recording one more failure of a backend that can fail lowers the potential by one -/
+theorem slack_bump (c : Cfg) (st st' : St) (i : Nat) (h : HostCfg) (hhi : c.hosts[i]? = some h)
+    (hbad : alwaysOk h = false) (hlt : lenT st i < c.maxFails)
+    (ht : st'.timers = fun j => if j = i then (st.now + c.failTimeout) :: st.timers j else st.timers j) :
+    slack c st' + 1 = slack c st := by
+  unfold slack
+  have : lenT st' = fun j => if j = i then lenT st j + 1 else lenT st j := by
+    funext j
+    simp only [lenT, ht]
+    by_cases hj : j = i <;> simp [hj]
+  rw [this]
+  exact slackL_bump c _ (lenT st) i h (by simp [hbad]) hlt c.hosts 0 (Nat.zero_le _) (by simpa using hhi)
+
+/-- a backend that always answers and is in rotation after the attempts made so far is available to `Select` -/
+theorem avail_of_goodAfter (c : Cfg) (st : St) (acc : List Attempt) (hinv : Inv c st acc)
+    (hF : c.failTimeout ≥ c.tryDuration) (g : Nat) (hg : goodAfter c st.attempts g = true) :
+    availAt (poolAt c st) g = true := by
+  rw [availAt_poolAt, hinv.over]
+  unfold goodAfter at hg
+  cases hgi : c.hosts[g]? with
+  | none => simp [hgi] at hg
+  | some h =>
+    cases hst : hostState c (overAfter c st.attempts) g with
+    | none => simp [hgi, hst] at hg
+    | some s =>
+      simp only [hgi, hst, Bool.and_eq_true] at hg
+      have h0 : failsAt st g = 0 := by
+        rw [failsAt_eq_lenT c st acc hinv hF, lenT, hinv.okClean g h hgi hg.1]; rfl
+      have hup := hg.2
+      simp only [upS, Bool.and_eq_true, Bool.not_eq_true', decide_eq_true_eq] at hup
+      have hnf : ¬ (s.fails ≥ c.maxFails) := by omega
+      simp [h0, hup.1.1, hup.1.2, hnf]
+
+/-- a backend that is healthy on arrival and that no event touches is healthy after any number of attempts -/
+theorem stableGood_goodAfter (c : Cfg) (g m : Nat) (hg : stableGood c g = true) : goodAfter c m g = true := by
+  unfold stableGood at hg
+  unfold goodAfter
+  cases hgi : c.hosts[g]? with
+  | none => simp [hgi] at hg
+  | some h =>
+    simp only [hgi, Bool.and_eq_true] at hg
+    have hnone := over_untouched c (overAfter c m) (overOK_overAfter c m) g hg.2
+    have hgood := hg.1
+    simp only [good, isFull, Bool.and_eq_true] at hgood
+    simp [hostState, hgi, hnone, HostCfg.state, upS, fullS, hgood.2, hgood.1.1.1, hgood.1.1.2, hgood.1.2]
+
+/-- One iteration from a state satisfying the invariant in which some backend is available either
+succeeds or records one more failure of a backend that can fail, keeps the invariant and lowers
+the potential by one. -/
+theorem step_retry (hs : SelSound) (hc : SelComplete) (c : Cfg) (he : Enabled c)
+    (st : St) (acc : List Attempt) (hinv : Inv c st acc) (hany : (poolAt c st).any Host.avail = true) :
     (∃ acc', step c st acc = .done .success acc') ∨
-    (∃ st' acc', step c st acc = .next st' acc' ∧ Inv c st' ∧ slack c st' + 1 = slack c st) := by
-  simp only [mustSucceed, retriesEnabled, budget, Bool.and_eq_true, decide_eq_true_eq] at hm
-  obtain ⟨⟨⟨⟨⟨_, hFpos⟩, hgood⟩, hof⟩, ⟨⟨⟨hI, hM⟩, _⟩, hF⟩⟩, hsz⟩ := hm
-  -- a healthy backend is available
-  obtain ⟨hg, hgmem, hgg⟩ := List.any_eq_true.mp hgood
-  obtain ⟨g, hgi⟩ := mem_getElem? hgmem
-  have hfa : ∀ i, failsAt st i = lenT st i := failsAt_eq_lenT c st hinv hF
-  have havg : availAt (poolAt c st) g = true := by
-    rw [availAt_poolAt, hgi]
-    have h0 : failsAt st g = 0 := by rw [hfa, lenT, hinv.goodClean g hg hgi hgg]; rfl
-    simp only [good, Bool.and_eq_true, Bool.not_eq_true'] at hgg
-    have : ¬ (0 ≥ c.maxFails) := by omega
-    simp [h0, hgg.1.1, hgg.1.2, this]
-  have hany := any_avail_of_availAt havg
-  have hsome := hc c.kind (poolAt c st) st.robin c.hash (c.rands st.selects) (poolAt_sized c st hsz) hany
+    (∃ st' acc', step c st acc = .next st' acc' ∧ Inv c st' acc' ∧ slack c st' + 1 = slack c st) := by
+  have hfa : ∀ i, failsAt st i = lenT st i := failsAt_eq_lenT c st acc hinv he.outlives
+  have hsome := hc c.kind (poolAt c st) st.robin c.hash (c.rands st.selects) (poolAt_sized c st he.sized hinv.overOK) hany
   have hsound := hs c.kind (poolAt c st) st.robin c.hash (c.rands st.selects)
   cases hsel : (upstreamSelect c.kind (poolAt c st) st.robin c.hash (c.rands st.selects)).1 with
   | none => rw [hsel] at hsome; simp at hsome
@@ -184,13 +299,12 @@ theorem step_inv (hs : SelSound) (hc : SelComplete) (c : Cfg) (hm : mustSucceed 
     simp only [sound] at hsound
     rw [availAt_poolAt] at hsound
     cases hhi : c.hosts[i]? with
-    | none => rw [hhi] at hsound; simp at hsound
+    | none => simp [hostState, hhi] at hsound
     | some h =>
-      rw [hhi] at hsound
-      simp only [Bool.and_eq_true, Bool.not_eq_true', Bool.or_eq_false_iff, decide_eq_false_iff_not] at hsound
+      simp only [hostState, hhi, Bool.and_eq_true, Bool.not_eq_true', Bool.or_eq_false_iff, decide_eq_false_iff_not] at hsound
       have hlt : lenT st i < c.maxFails := by have := hfa i; omega
       have hoc : okOrFail (outcomeAt h.script (st.calls i)) = true :=
-        outcomeAt_okOrFail _ _ ((List.all_eq_true.mp hof) h (List.mem_of_getElem? hhi))
+        outcomeAt_okOrFail _ _ ((List.all_eq_true.mp he.okFail) h (List.mem_of_getElem? hhi))
       unfold step
       simp only [hsel, outcomeOf, hhi]
       cases ho : outcomeAt h.script (st.calls i) with
@@ -199,102 +313,228 @@ theorem step_inv (hs : SelSound) (hc : SelComplete) (c : Cfg) (hm : mustSucceed 
       | tooLarge => rw [ho] at hoc; simp [okOrFail] at hoc
       | fail r =>
         right
-        have hbad : good c h = false := by
-          cases hgd : good c h with
+        have hbad : alwaysOk h = false := by
+          cases hgd : alwaysOk h with
           | false => rfl
           | true =>
-            simp only [good, Bool.and_eq_true] at hgd
-            rw [outcomeAt_alwaysOk h _ hgd.2] at ho
+            rw [outcomeAt_alwaysOk h _ hgd] at ho
             cases ho
         have hnow : ¬ (st.now ≥ c.tryDuration) := by have := hinv.budget; omega
-        have hFp : c.failTimeout > 0 := hFpos
+        have hFp : c.failTimeout > 0 := he.failTimeoutPos
         simp only [hFp, if_true, keepRetrying, hnow, if_false]
-        have hsl : slack c { st with
+        refine ⟨_, _, rfl, ?_⟩
+        have hsl := slack_bump c st (i := i) (h := h) (hhi := hhi) (hbad := hbad) (hlt := hlt)
+          (st' := { st with
             now := st.now + c.interval, robin := (upstreamSelect c.kind (poolAt c st) st.robin c.hash (c.rands st.selects)).2,
             selects := st.selects + 1,
             calls := fun j => if j = i then st.calls j + 1 else st.calls j,
             bodyUnread := st.bodyUnread && !readsBody (.fail r),
-            timers := fun j => if j = i then (st.now + c.failTimeout) :: st.timers j else st.timers j } + 1 = slack c st := by
-          unfold slack
-          have : (lenT { st with
-            now := st.now + c.interval, robin := (upstreamSelect c.kind (poolAt c st) st.robin c.hash (c.rands st.selects)).2,
-            selects := st.selects + 1,
-            calls := fun j => if j = i then st.calls j + 1 else st.calls j,
-            bodyUnread := st.bodyUnread && !readsBody (.fail r),
-            timers := fun j => if j = i then (st.now + c.failTimeout) :: st.timers j else st.timers j })
-              = fun j => if j = i then lenT st j + 1 else lenT st j := by
-            funext j
-            simp only [lenT]
-            by_cases hj : j = i <;> simp [hj]
-          rw [this]
-          exact slackL_bump c (lenT st) i h hbad hlt c.hosts 0 (Nat.zero_le _) (by simpa using hhi)
-        refine ⟨_, _, rfl, ⟨?_, ?_, ?_⟩, hsl⟩
-        · intro j e he
-          simp only at he
+            attempts := st.attempts + 1,
+            over := applyEvents c.events st.attempts st.over,
+            timers := fun j => if j = i then (st.now + c.failTimeout) :: st.timers j else st.timers j }) rfl
+        refine ⟨⟨?_, ?_, ?_, ?_, ?_⟩, hsl⟩
+        · intro j e he'
+          simp only at he'
           by_cases hj : j = i
-          · simp only [hj, if_true, List.mem_cons] at he
-            rcases he with rfl | he
+          · simp only [hj, if_true, List.mem_cons] at he'
+            rcases he' with rfl | he'
             · omega
-            · exact hinv.unexpired i e he
-          · simp only [hj, if_false] at he
-            exact hinv.unexpired j e he
-        · intro j hj hjget hjgood
+            · exact hinv.unexpired i e he'
+          · simp only [hj, if_false] at he'
+            exact hinv.unexpired j e he'
+        · intro j hj hjget hjok
           have hji : j ≠ i := by
             intro heq; subst heq
             rw [hhi] at hjget
             cases hjget
-            rw [hbad] at hjgood; cases hjgood
+            rw [hbad] at hjok; cases hjok
           simp only [hji, if_false]
-          exact hinv.goodClean j hj hjget hjgood
+          exact hinv.okClean j hj hjget hjok
         · have hb := hinv.budget
-          have : slack c st = slack c { st with
-            now := st.now + c.interval, robin := (upstreamSelect c.kind (poolAt c st) st.robin c.hash (c.rands st.selects)).2,
-            selects := st.selects + 1,
-            calls := fun j => if j = i then st.calls j + 1 else st.calls j,
-            bodyUnread := st.bodyUnread && !readsBody (.fail r),
-            timers := fun j => if j = i then (st.now + c.failTimeout) :: st.timers j else st.timers j } + 1 := hsl.symm
-          rw [this, Nat.add_mul] at hb
+          rw [← hsl, Nat.add_mul] at hb
           simp only [Nat.one_mul] at hb
           show st.now + c.interval + _ * c.interval < c.tryDuration
           omega
+        · show applyEvents c.events st.attempts st.over = overAfter c (st.attempts + 1)
+          rw [hinv.over]; rfl
+        · simp [hinv.len]
 
-theorem loop_success (hs : SelSound) (hc : SelComplete) (c : Cfg) (hm : mustSucceed c = true) :
-    ∀ (fuel : Nat) (st : St) (acc : List Attempt), Inv c st → slack c st < fuel → (loop c fuel st acc).1 = .success := by
+/-- A backend that is healthy whatever number of attempts has been made: the loop reaches it. -/
+theorem loop_success (hs : SelSound) (hc : SelComplete) (c : Cfg) (he : Enabled c)
+    (g : Nat) (hg : ∀ m, goodAfter c m g = true) :
+    ∀ (fuel : Nat) (st : St) (acc : List Attempt), Inv c st acc → slack c st < fuel → (loop c fuel st acc).1 = .success := by
   intro fuel
   induction fuel with
   | zero => intro st acc _ h; omega
   | succ fuel ih =>
     intro st acc hinv hlt
     unfold loop
-    rcases step_inv hs hc c hm st acc hinv with ⟨acc', h⟩ | ⟨st', acc', h, hinv', hsl⟩
+    have hany := any_avail_of_availAt (avail_of_goodAfter c st acc hinv he.outlives g (hg _))
+    rcases step_retry hs hc c he st acc hinv hany with ⟨acc', h⟩ | ⟨st', acc', h, hinv', hsl⟩
     · rw [h]
     · rw [h]
       exact ih st' acc' hinv' (by omega)
 
 theorem slack_init (c : Cfg) (robin : Nat) :
-    slack c { St.init with robin := robin } = c.maxFails * badCount c := by
-  unfold slack badCount
+    slack c { St.init with robin := robin } = c.maxFails * flakyCount c := by
+  unfold slack flakyCount
   have : lenT { St.init with robin := robin } = fun _ => 0 := by funext j; rfl
   rw [this, slackL_zero]
 
-theorem inv_init (c : Cfg) (robin : Nat) (hm : mustSucceed c = true) : Inv c { St.init with robin := robin } := by
-  simp only [mustSucceed, budget, Bool.and_eq_true, decide_eq_true_eq] at hm
-  refine ⟨?_, ?_, ?_⟩
+theorem inv_init (c : Cfg) (robin : Nat) (hb : c.maxFails * flakyCount c * c.interval < c.tryDuration) :
+    Inv c { St.init with robin := robin } [] := by
+  refine ⟨?_, ?_, ?_, rfl, rfl⟩
   · intro i e he; simp [St.init] at he
   · intro i h _ _; rfl
-  · rw [slack_init]; simpa [St.init] using hm.1.2.1.2
+  · rw [slack_init]; simpa [St.init] using hb
+
+theorem fuel_enough (c : Cfg) (robin : Nat) (hI : c.interval ≥ 1)
+    (hb : c.maxFails * flakyCount c * c.interval < c.tryDuration) :
+    slack c { St.init with robin := robin } < fuelFor c := by
+  rw [slack_init]
+  have : c.maxFails * flakyCount c ≤ c.maxFails * flakyCount c * c.interval := Nat.le_mul_of_pos_right _ hI
+  unfold fuelFor
+  omega
+
+/-- backends that can fail are not healthy -/
+theorem flakyCount_le_badCount (c : Cfg) : flakyCount c ≤ badCount c := by
+  unfold flakyCount badCount
+  generalize c.hosts = hs
+  induction hs with
+  | nil => simp
+  | cons h hs ih =>
+    simp only [List.filter_cons]
+    cases ha : alwaysOk h
+    · have : good c h = false := by simp [good, ha]
+      simp [this]; omega
+    · cases hg : good c h <;> simp <;> omega
 
 theorem serve_success (hs : SelSound) (hc : SelComplete) (c : Cfg) (robin : Nat) (hm : mustSucceed c = true) :
     (serve c robin).1 = .success := by
+  simp only [mustSucceed, retriesEnabled, budget, Bool.and_eq_true, decide_eq_true_eq] at hm
+  obtain ⟨⟨⟨⟨⟨_, hFpos⟩, hgood⟩, hof⟩, ⟨⟨⟨hI, hM⟩, hB⟩, hF⟩⟩, hsz⟩ := hm
+  obtain ⟨g, _, hgs⟩ := List.any_eq_true.mp hgood
+  have hb : c.maxFails * flakyCount c * c.interval < c.tryDuration :=
+    Nat.lt_of_le_of_lt (Nat.mul_le_mul_right _ (Nat.mul_le_mul_left _ (flakyCount_le_badCount c))) hB
   unfold serve
-  apply loop_success hs hc c hm _ _ _ (inv_init c robin hm)
-  rw [slack_init]
-  simp only [mustSucceed, budget, Bool.and_eq_true, decide_eq_true_eq] at hm
-  have h1 := hm.1.2.1.2
-  have hI := hm.1.2.1.1.1
-  have : c.maxFails * badCount c ≤ c.maxFails * badCount c * c.interval := Nat.le_mul_of_pos_right _ hI
-  unfold fuelFor
-  omega
+  exact loop_success hs hc c ⟨hFpos, hof, hM, hF, hsz⟩ g (fun m => stableGood_goodAfter c g m hgs) _ _ _
+    (inv_init c robin hb) (fuel_enough c robin hI hb)
+
+/-! ### backends that come back: nobody left in rotation is the only way to fail -/
+
+/-- nobody is in rotation, no recorded failure expires before the loop gives up -/
+structure Stuck (c : Cfg) (st : St) : Prop where
+  late : ∀ i e, e ∈ st.timers i → e ≥ c.tryDuration + c.interval
+  now : st.now < c.tryDuration + c.interval
+  nobody : (poolAt c st).any Host.avail = false
+
+theorem failsAt_of_unexpired (st : St) (i : Nat) (h : ∀ e, e ∈ st.timers i → e > st.now) : failsAt st i = lenT st i := by
+  unfold failsAt lenT
+  congr 1
+  rw [List.filter_eq_self]
+  intro e he
+  simpa using h e he
+
+theorem poolAt_congr (c : Cfg) (st st' : St) (ho : st'.over = st.over) (hf : ∀ i, failsAt st' i = failsAt st i) :
+    poolAt c st' = poolAt c st := by
+  unfold poolAt
+  simp only [ho, hf]
+
+theorem step_stuck (hs : SelSound) (c : Cfg) (st : St) (acc : List Attempt) (h : Stuck c st) :
+    step c st acc = .done .badGateway acc ∨ ∃ st', step c st acc = .next st' acc ∧ Stuck c st' := by
+  unfold step
+  simp only
+  cases hsel : (upstreamSelect c.kind (poolAt c st) st.robin c.hash (c.rands st.selects)).1 with
+  | some i =>
+    have hsound := hs c.kind (poolAt c st) st.robin c.hash (c.rands st.selects)
+    rw [hsel] at hsound
+    simp only [sound] at hsound
+    have := any_avail_of_availAt hsound
+    rw [h.nobody] at this
+    cases this
+  | none =>
+    simp only
+    rcases keepRetrying_cases c { st with robin := (upstreamSelect c.kind (poolAt c st) st.robin c.hash (c.rands st.selects)).2, selects := st.selects + 1 } acc with hk | ⟨hlt, hk⟩
+    · left; exact hk
+    · right
+      refine ⟨_, hk, ?_, ?_, ?_⟩
+      · exact h.late
+      · simp only at hlt ⊢; omega
+      · have hnow := h.now
+        simp only at hlt
+        refine (congrArg (fun p => List.any p Host.avail) (poolAt_congr c st _ ?_ ?_)).trans h.nobody
+        · rfl
+        intro i
+        have e1 : failsAt st i = lenT st i :=
+          failsAt_of_unexpired st i (fun e he => by have := h.late i e he; omega)
+        rw [e1]
+        refine (failsAt_of_unexpired _ i ?_).trans rfl
+        intro e he
+        have := h.late i e he
+        show e > st.now + c.interval
+        omega
+
+theorem loop_stuck (hs : SelSound) (c : Cfg) :
+    ∀ (fuel : Nat) (st : St) (acc : List Attempt), Stuck c st →
+      (loop c fuel st acc).1 ≠ .success ∧ (loop c fuel st acc).2 = acc.reverse := by
+  intro fuel
+  induction fuel with
+  | zero => intro st acc _; exact ⟨by simp [loop], rfl⟩
+  | succ fuel ih =>
+    intro st acc h
+    unfold loop
+    rcases step_stuck hs c st acc h with hd | ⟨st', hn, h'⟩
+    · rw [hd]; exact ⟨by simp, rfl⟩
+    · rw [hn]; exact ih st' acc h'
+
+/-- Whatever state the backends arrive in and however it changes between the attempts: the run
+ends with an answer, or with no backend that always answers left in rotation. -/
+theorem loop_late (hs : SelSound) (hc : SelComplete) (c : Cfg) (he : Enabled c)
+    (hL : c.failTimeout ≥ c.tryDuration + c.interval) :
+    ∀ (fuel : Nat) (st : St) (acc : List Attempt), Inv c st acc → slack c st < fuel →
+      (loop c fuel st acc).1 = .success ∨
+        (List.range c.hosts.length).any (goodAfter c (loop c fuel st acc).2.length) = false := by
+  intro fuel
+  induction fuel with
+  | zero => intro st acc _ h; omega
+  | succ fuel ih =>
+    intro st acc hinv hlt
+    cases hany : (poolAt c st).any Host.avail with
+    | true =>
+      unfold loop
+      rcases step_retry hs hc c he st acc hinv hany with ⟨acc', h⟩ | ⟨st', acc', h, hinv', hsl⟩
+      · rw [h]; left; rfl
+      · rw [h]
+        exact ih st' acc' hinv' (by omega)
+    | false =>
+      right
+      have hstuck : Stuck c st := by
+        refine ⟨?_, ?_, hany⟩
+        · intro i e he'
+          have := hinv.unexpired i e he'
+          omega
+        · have := hinv.budget
+          omega
+      rw [(loop_stuck hs c (fuel + 1) st acc hstuck).2, List.length_reverse, hinv.len]
+      cases hg : (List.range c.hosts.length).any (goodAfter c st.attempts) with
+      | false => rfl
+      | true =>
+        obtain ⟨g, _, hgg⟩ := List.any_eq_true.mp hg
+        have := any_avail_of_availAt (avail_of_goodAfter c st acc hinv he.outlives g hgg)
+        rw [hany] at this
+        cases this
+
+theorem serve_late (hs : SelSound) (hc : SelComplete) (c : Cfg) (robin : Nat)
+    (hm : mustSucceedAfter c (serve c robin).2.length = true) : (serve c robin).1 = .success := by
+  simp only [mustSucceedAfter, retriesEnabled, budgetLate, Bool.and_eq_true, decide_eq_true_eq] at hm
+  obtain ⟨⟨⟨⟨⟨_, hFpos⟩, hof⟩, ⟨⟨⟨hI, hM⟩, hB⟩, hL⟩⟩, hsz⟩, hg⟩ := hm
+  have he : Enabled c := ⟨hFpos, hof, hM, by omega, hsz⟩
+  have := loop_late hs hc c he hL (fuelFor c) { St.init with robin := robin } [] (inv_init c robin hB) (fuel_enough c robin hI hB)
+  rcases this with h | h
+  · exact h
+  · unfold serve at hg
+    rw [h] at hg
+    cases hg
 
 /-! ### bodies -/
 
@@ -305,14 +545,6 @@ theorem bodySeen_ok (c : Cfg) (st : St) (o : Outcome) (h : buffered c = true ∨
     BodyOK c { host := i, body := bodySeen c st o } = true := by
   unfold BodyOK bodySeen
   cases hb : c.hasBody <;> cases hr : readsBody o <;> rcases h with h | h <;> simp [h]
-
-theorem keepRetrying_cases (c : Cfg) (st : St) (acc : List Attempt) :
-    keepRetrying c st acc = .done .badGateway acc ∨
-      (st.now < c.tryDuration ∧ keepRetrying c st acc = .next { st with now := st.now + c.interval } acc) := by
-  unfold keepRetrying
-  by_cases h : st.now ≥ c.tryDuration
-  · left; simp [h]
-  · right; exact ⟨by omega, by simp [h]⟩
 
 /-- what one iteration does to the attempt list: nothing, or one new attempt with a complete body;
 and it only continues inside the retry window -/
@@ -398,7 +630,9 @@ theorem loop_bodies_single (c : Cfg) (hd : c.tryDuration = 0) (fuel : Nat) (st :
 
 /-! ### giving up -/
 
-theorem step_none_available (hs : SelSound) (c : Cfg) (hn : neverAvailable c = true) (st : St) (acc : List Attempt) :
+/-- nobody in rotation on arrival and no event so far: `Select` finds nobody -/
+theorem step_none_available (hs : SelSound) (c : Cfg) (hn : neverAvailable c = true) (st : St) (acc : List Attempt)
+    (hov : ∀ i, st.over i = none) :
     step c st acc = keepRetrying c { st with
       robin := (upstreamSelect c.kind (poolAt c st) st.robin c.hash (c.rands st.selects)).2,
       selects := st.selects + 1 } acc := by
@@ -412,25 +646,27 @@ theorem step_none_available (hs : SelSound) (c : Cfg) (hn : neverAvailable c = t
     simp only [sound] at hsound
     rw [availAt_poolAt] at hsound
     cases hhi : c.hosts[i]? with
-    | none => rw [hhi] at hsound; simp at hsound
+    | none => simp [hostState, hhi] at hsound
     | some h =>
-      rw [hhi] at hsound
-      have := (List.all_eq_true.mp hn) h (List.mem_of_getElem? hhi)
-      simp only [Bool.and_eq_true, Bool.not_eq_true', Bool.or_eq_false_iff] at hsound
-      rcases Bool.or_eq_true_iff.mp this with hu | hf
-      · rw [hu] at hsound; exact absurd hsound.1.1 (by simp)
-      · rw [hf] at hsound; exact absurd hsound.2 (by simp)
+      have hup := (List.all_eq_true.mp hn) h (List.mem_of_getElem? hhi)
+      simp only [hostState, hhi, hov i, Option.getD_none, HostCfg.state, Bool.and_eq_true, Bool.not_eq_true',
+        Bool.or_eq_false_iff, decide_eq_false_iff_not] at hsound
+      have hfull : (decide (c.maxConns > 0) && decide (h.conns ≥ c.maxConns)) = false := hsound.2
+      have hnf : ¬ (h.fails + failsAt st i ≥ c.maxFails) := hsound.1.2
+      have hlt : h.fails < c.maxFails := by omega
+      simp only [upS, fullS, HostCfg.state, hsound.1.1, hfull, hlt, decide_true, Bool.not_false, Bool.and_self,
+        Bool.not_true, Bool.false_eq_true] at hup
 
 theorem loop_gives_up (hs : SelSound) (c : Cfg) (hn : neverAvailable c = true) (hI : c.interval ≥ 1) :
-    ∀ (fuel : Nat) (st : St), fuel ≥ 1 → fuel + st.now ≥ c.tryDuration + 1 →
+    ∀ (fuel : Nat) (st : St), (∀ i, st.over i = none) → fuel ≥ 1 → fuel + st.now ≥ c.tryDuration + 1 →
       loop c fuel st [] = (.badGateway, []) := by
   intro fuel
   induction fuel with
-  | zero => intro st h; omega
+  | zero => intro st _ h; omega
   | succ fuel ih =>
-    intro st _ hsum
+    intro st hov _ hsum
     unfold loop
-    rw [step_none_available hs c hn st []]
+    rw [step_none_available hs c hn st [] hov]
     rcases keepRetrying_cases c { st with
       robin := (upstreamSelect c.kind (poolAt c st) st.robin c.hash (c.rands st.selects)).2,
       selects := st.selects + 1 } [] with hk | ⟨hlt, hk⟩
@@ -438,6 +674,7 @@ theorem loop_gives_up (hs : SelSound) (c : Cfg) (hn : neverAvailable c = true) (
     · rw [hk]
       simp only at hlt
       apply ih
+      · exact hov
       · omega
       · simp only; omega
 
@@ -445,6 +682,7 @@ theorem serve_gives_up (hs : SelSound) (c : Cfg) (robin : Nat) (hn : neverAvaila
     serve c robin = (.badGateway, []) := by
   unfold serve
   apply loop_gives_up hs c hn hI
+  · intro i; rfl
   · unfold fuelFor; omega
   · unfold fuelFor; simp [St.init]
 
